@@ -229,6 +229,9 @@ def main(argv):
         if a.prop in PROPS:
             return run_value_property(a.prop, a.tier, seed, a.archs.split(",") if a.archs else None, a.ops.split(",") if a.ops else None,
                                       a.types.split(",") if a.types else None)
+        if a.prop == "C15":
+            from . import c15
+            return c15.run(a.tier, seed)
         if a.prop == "C17":
             return run_c17(a.tier, seed, a.ops.split(",") if a.ops else None, a.types.split(",") if a.types else None)
         print("unknown property", a.prop)
